@@ -26,15 +26,19 @@ for sid in sorted(os.listdir(os.path.join(VERIF, "seeded"))):
         demo = subprocess.run(["/venv/bin/python", os.path.join(d, "demo.py")], cwd=tmp, env=env,
                               stdout=subprocess.PIPE, stderr=subprocess.STDOUT, timeout=300).returncode
         env = dict(os.environ, DSIM_REPO=tmp); env.pop("PYTHONHASHSEED", None)
-        cmd = [os.path.join(VERIF, "check"), meta["property"], "--tier", "quick", "--no-corpus"] + (["--runs", runs[0]] if runs else [])
+        exp = meta.get("expect_on_current_tree")
+        cmd = [os.path.join(VERIF, "check"), meta["property"], "--tier", "quick"] + \
+            ([] if exp == "corpus-only" else ["--no-corpus"]) + (["--runs", runs[0]] if runs else [])
         c = subprocess.run(cmd, cwd=VERIF, env=env, stdout=subprocess.PIPE, stderr=subprocess.STDOUT)
         out = c.stdout.decode(errors="replace")
         cls = [l for l in out.splitlines() if l.startswith("violation class")]
-        want = 0 if meta.get("expect_on_current_tree") == "pass" else 1
+        want = 0 if exp in ("pass", "missed") else 1
+        want_demo = 0 if exp == "pass" else 1
+        tag = {"pass": " (neutralised by a later fix: expected green)", "missed": " (KNOWN MISS: outside the injected fault classes)",
+               "corpus-only": " (found by the hand-built corpus scenario only)"}.get(exp, "")
         print("%-8s %s demo_exit=%d check_exit=%d %s%s" % (sid, meta["property"], demo, c.returncode,
-                                                         cls[0][:150] if cls else "",
-                                                         " (neutralised by a later fix: expected green)" if want == 0 else ""))
-        if c.returncode != want or demo != want:
+                                                         cls[0][:150] if cls else "", tag))
+        if c.returncode != want or demo != want_demo:
             ok = False
     finally:
         shutil.rmtree(tmp, ignore_errors=True)
